@@ -328,6 +328,13 @@ pub struct TKnobs {
     pub crypto_buffer: usize,
     /// harness congestion controller: Some((base window, oscillate))
     pub harness_cc: Option<(u64, bool)>,
+    /// AckFrequencyConfig other than the default (when `ack_freq`): (ack-eliciting threshold,
+    /// requested max_ack_delay in ms, reordering threshold)
+    pub ack_freq_params: Option<(u64, Option<u64>, u64)>,
+    /// MtuDiscoveryConfig other than the default: (interval ms, black-hole cooldown ms, minimum
+    /// change)
+    pub mtud_params: Option<(u64, u64, u16)>,
+    pub allow_spin: bool,
 }
 
 impl Default for TKnobs {
@@ -358,6 +365,9 @@ impl Default for TKnobs {
             persistent_congestion_threshold: 3,
             crypto_buffer: 16 * 1024,
             harness_cc: None,
+            ack_freq_params: None,
+            mtud_params: None,
+            allow_spin: true,
         }
     }
 }
@@ -382,6 +392,13 @@ impl TKnobs {
         k.initial_rtt_ms = *ch.pick("knob.initial_rtt", &[333u64, 10, 50, 100, 1000]);
         k.packet_threshold = *ch.pick("knob.pkt_thresh", &[3u32, 3, 4, 10]);
         k.pacing_cap = *ch.pick("knob.pacing", &[None, None, None, Some(50_000u64), Some(1_000_000)]);
+        if ch.chance("knob.ack_freq_params", 1, 2) {
+            k.ack_freq_params = Some((*ch.pick("knob.ackf.threshold", &[1u64, 0, 2, 10, 100]), *ch.pick("knob.ackf.max_ack_delay", &[None, Some(5u64), Some(100), Some(1)]), *ch.pick("knob.ackf.reorder", &[2u64, 0, 1, 5])));
+        }
+        if ch.chance("knob.mtud_params", 1, 3) {
+            k.mtud_params = Some((*ch.pick("knob.mtud.interval_ms", &[600_000u64, 50, 1000, 10_000]), *ch.pick("knob.mtud.cooldown_ms", &[60_000u64, 100, 2000]), *ch.pick("knob.mtud.min_change", &[20u16, 1, 5, 200])));
+        }
+        k.allow_spin = !ch.chance("knob.no_spin", 1, 4);
         k.sane();
         k
     }
@@ -411,12 +428,19 @@ impl TKnobs {
         if self.mtud {
             let mut m = quinn_proto::MtuDiscoveryConfig::default();
             m.upper_bound(self.mtud_upper.max(1200));
+            if let Some((interval, cooldown, min_change)) = self.mtud_params {
+                m.interval(Duration::from_millis(interval)).black_hole_cooldown(Duration::from_millis(cooldown)).minimum_change(min_change);
+            }
             t.mtu_discovery_config(Some(m));
         } else {
             t.mtu_discovery_config(None);
         }
         if self.ack_freq {
-            t.ack_frequency_config(Some(quinn_proto::AckFrequencyConfig::default()));
+            let mut a = quinn_proto::AckFrequencyConfig::default();
+            if let Some((thr, mad, reorder)) = self.ack_freq_params {
+                a.ack_eliciting_threshold(VarInt::from_u64(thr).unwrap()).max_ack_delay(mad.map(Duration::from_millis)).reordering_threshold(VarInt::from_u64(reorder).unwrap());
+            }
+            t.ack_frequency_config(Some(a));
         }
         t.send_fairness(self.fairness);
         t.enable_segmentation_offload(self.gso);
@@ -453,6 +477,7 @@ impl TKnobs {
         t.time_threshold(self.time_threshold_x8 as f32 / 8.0);
         t.persistent_congestion_threshold(self.persistent_congestion_threshold);
         t.crypto_buffer_size(self.crypto_buffer);
+        t.allow_spin(self.allow_spin);
     }
 }
 
